@@ -113,4 +113,63 @@ def closedForm (b : Branch σ α) (bl : List (List α)) : List (Ev α) :=
   | .fillRequest =>
     if bl.isEmpty then .request b.id :: outs b.id (b.ops.request b.st).1 else frTrace b.id b.ops b.st bl
 
+/-! ## block by block: what ONE branch contributes to block number `k`, kind by kind
+
+Independent of `stepBranch`/`life`: stated with the state in which the branch starts the block. -/
+
+/-- the state in which a plain Sequence starts block `k`: after `k` runs -/
+def seqStateAt (ops : Ops σ α) : σ → List (List α) → Nat → σ
+  | s, _, 0 => s
+  | s, [], _ + 1 => s
+  | s, blk :: rest, k + 1 => seqStateAt ops (ops.run s blk).2 rest k
+
+/-- the state in which a fill branch starts block `k`; `none`: it signalled `LenaStopFill` in an
+earlier block (and was dropped).  `after` is what the end of a block does to the object:
+`request()` for a fill/request branch, nothing for a fill/compute branch. -/
+def fillStateAt (i : Nat) (ops : Ops σ α) (after : σ → σ) : σ → List (List α) → Nat → Option σ
+  | s, _, 0 => some s
+  | s, [], _ + 1 => some s
+  | s, blk :: rest, k + 1 =>
+    if (fillBuf i ops s blk).2.2 then none
+    else fillStateAt i ops after (after (fillBuf i ops s blk).2.1) rest k
+
+/-- THE SENTENCE OF THE PROPERTY FOR ONE BLOCK: in block `k` a Source yields its complete output
+iff it is the first block; a plain Sequence is run on the block (in the state its earlier runs
+left); a fill/request branch that has not stopped is filled with the block and yields
+`request()`; a fill/compute branch that has not stopped is filled with the block and yields
+`compute()` only if it signals `LenaStopFill` in this block -/
+def blockForm (b : Branch σ α) (bl : List (List α)) (k : Nat) : List (Ev α) :=
+  match bl[k]? with
+  | none => []
+  | some blk =>
+    match b.kind with
+    | .source => if k = 0 then .call b.id :: outs b.id (b.ops.call b.st).1 else []
+    | .sequence => .run b.id blk :: outs b.id (b.ops.run (seqStateAt b.ops b.st bl k) blk).1
+    | .fillRequest =>
+      match fillStateAt b.id b.ops (fun s => (b.ops.request s).2) b.st bl k with
+      | none => []
+      | some s =>
+        (fillBuf b.id b.ops s blk).1 ++
+          .request b.id :: outs b.id (b.ops.request (fillBuf b.id b.ops s blk).2.1).1
+    | .fillCompute =>
+      match fillStateAt b.id b.ops id b.st bl k with
+      | none => []
+      | some s =>
+        if (fillBuf b.id b.ops s blk).2.2 then
+          (fillBuf b.id b.ops s blk).1 ++
+            .compute b.id :: outs b.id (b.ops.compute (fillBuf b.id b.ops s blk).2.1).1
+        else (fillBuf b.id b.ops s blk).1
+
+/-- … and after the last block: `compute()` of a fill/compute branch that never stopped; one
+invocation of every other branch iff there was no block at all -/
+def finalForm (b : Branch σ α) (bl : List (List α)) : List (Ev α) :=
+  match b.kind with
+  | .source => if bl.isEmpty then .call b.id :: outs b.id (b.ops.call b.st).1 else []
+  | .sequence => if bl.isEmpty then .run b.id [] :: outs b.id (b.ops.run b.st []).1 else []
+  | .fillRequest => if bl.isEmpty then .request b.id :: outs b.id (b.ops.request b.st).1 else []
+  | .fillCompute =>
+    match fillStateAt b.id b.ops id b.st bl bl.length with
+    | none => []
+    | some s => .compute b.id :: outs b.id (b.ops.compute s).1
+
 end Lena.C03
